@@ -138,6 +138,7 @@ def run(ctx):
     # ---- the same search loop on BINARY64 score tables of the real built-in scorers (Model/Generic.v at Model/GenericF.v), bit for bit ----
     from harness import floatstreams
     floatstreams.mw_float_stream(ctx, ctx.n(45, 300))
+    floatstreams.gcov_many_columns_stream(ctx, "MovingWindow(GaussianCovCost)", lambda: __import__("skchange.change_detectors", fromlist=["MovingWindow"]).MovingWindow(change_score=__import__("skchange.costs", fromlist=["GaussianCovCost"]).GaussianCovCost(), bandwidth=50), ctx.n(1, 4))
     # the DEFAULT configuration on series of realistic length and width, decided by the property-level twin of the model
     floatstreams.mw_default_scale_stream(ctx, ctx.n(3, 20))
 
